@@ -86,22 +86,23 @@ def iter_ops(r="v0"):
     seqs = []
     for b1, b2 in [("U", "U"), ("I1", "E3"), ("I0", "I1"), ("E0", "U"), ("I2", "E2"), ("U", "E1")]:
         for steps in ([], ["next it"], ["next_back it"], ["next it", "next_back it", "next it", "next it", "next_back it"],
-                      ["next_back it", "next_back it", "next_back it", "next it"]):
-            for fin in ("drop it", "forget it"):
+                      ["next_back it", "next_back it", "next_back it", "next it"], ["nth it 1"], ["nth_back it 1", "nth it 9"]):
+            for fin in ("drop it", "forget it", "count it"):
                 seqs.append(["drain %s %s %s it" % (r, b1, b2)] + steps + ["size_hint it", "len it", fin, "push %s 77" % r])
         for fill in ("it[]", "it[7]", "it[7,8]", "it[7,8,9,10,11,12]"):
-            for steps in ([], ["next it"], ["next_back it", "next it"]):
-                seqs.append(["splice %s %s %s %s it" % (r, b1, b2, fill)] + steps + ["size_hint it", "drop it", "push %s 77" % r])
+            for steps in ([], ["next it"], ["next_back it", "next it"], ["nth_back it 1"]):
+                seqs.append(["splice %s %s %s %s it" % (r, b1, b2, fill)] + steps + ["size_hint it", "count it" if steps == ["next it"] else "drop it", "push %s 77" % r])
         # a Splice that is leaked after stepping, also with a replacement iterator that is not fused
         for fill in ("it[7,8]", "it[N,7,8,9]", "it[7,N,8,9]"):
             for steps in ([], ["next it"], ["next_back it"], ["next it", "next it"], ["next_back it", "next_back it", "next it"]):
                 seqs.append(["splice %s %s %s %s it" % (r, b1, b2, fill)] + steps + ["forget it", "push %s 77" % r])
     for p in ("mod2=0", "mod2=1", "seqTTTTTTTT", "seq", "seqFTFTFT"):
-        for steps in ([], ["next it"], ["next it", "next it", "next it", "next it", "next it"]):
-            for fin in ("drop it", "forget it"):
+        for steps in ([], ["next it"], ["next it", "next it", "next it", "next it", "next it"], ["nth it 1"]):
+            for fin in ("drop it", "forget it", "count it"):
                 seqs.append(["drain_filter %s %s it" % (r, p)] + steps + ["size_hint it", fin, "push %s 77" % r])
-    for steps in ([], ["next it"], ["next_back it"], ["next it", "next_back it", "next it", "next_back it", "next it", "next it"]):
-        for fin in (["drop it"], ["forget it"], ["clone_iter it it2", "next it2", "drop it", "as_slice it2", "next_back it2", "drop it2"],
+    for steps in ([], ["next it"], ["next_back it"], ["next it", "next_back it", "next it", "next_back it", "next it", "next it"],
+                  ["nth it 1", "nth_back it 0"], ["nth it 9"], ["next it", "nth_back it 7"]):
+        for fin in (["drop it"], ["forget it"], ["count it"], ["clone_iter it it2", "next it2", "drop it", "as_slice it2", "next_back it2", "drop it2"],
                     ["clone_iter it it2", "drop it2", "next it"]):
             seqs.append(["into_iter %s it" % r] + steps + ["size_hint it", "len it", "as_slice it"] + fin)
     return seqs
@@ -187,14 +188,16 @@ def random_case(rng, name, cls, mode, nops, directives=(), hostile=False):
         if its and choice < 30:
             it, kind, src = rng.pick(its)
             k = rng.below(10)
-            if k < 4: ops.append("next " + it)
-            elif k < 6 and kind != "df": ops.append("next_back " + it)
+            # (the provided-method variants are chosen from the position, not from the generator state)
+            if k < 4: ops.append("nth %s %d" % (it, len(ops) % 3) if len(ops) % 7 == 3 else "next " + it)
+            elif k < 6 and kind != "df": ops.append("nth_back %s %d" % (it, len(ops) % 3) if len(ops) % 7 == 5 else "next_back " + it)
             elif k < 7: ops.append("size_hint " + it)
             elif k < 8 and kind == "ii": ops.append("as_slice " + it)
             elif k == 8 and kind == "ii":
                 it2 = fresh("i"); ops.append("clone_iter %s %s" % (it, it2)); its.append((it2, "ii", None))
             else:
-                ops.append(("forget " if rng.chance(1, 5) else "drop ") + it)
+                fin = "forget " if rng.chance(1, 5) else "drop "
+                ops.append(("count " if fin == "drop " and len(ops) % 5 == 2 else fin) + it)
                 its.remove((it, kind, src))
                 if src: lent.discard(src)
             continue
